@@ -55,20 +55,27 @@ func runReuse(g *gen, rounds int, emit emitFn) (evals int, results map[string]in
 					map[string]string{"line": replay, "class": who, "before": hx.Hex(before), "after": hx.Hex(after)}})
 			}
 		}
+		firstOK := false
 		// the same honest object, verified repeatedly; a struct copy in between; the negation in between
 		for k := 0; k < 4; k++ {
 			evals++
 			ok := groupsig.VerifySig(*pk, msg, sigObj)
+			if k == 0 {
+				firstOK = ok
+			}
 			results[fmt.Sprintf("honest#%d=%s", k+1, b01(ok))]++
-			if !ok {
-				emit(viol{"verify-not-repeatable", fmt.Sprintf("verification #%d of the same honest Signature object is rejected (earlier ones were accepted)", k+1),
+			if !ok && (k == 0 || !firstOK) {
+				emit(viol{"honest-signature-rejected", "the Signature object returned by Sign is rejected by VerifySig under the matching key (first presentation)",
+					map[string]string{"line": "verify " + hx.Hex(pkb0) + " " + hx.Hex(msg) + " " + hx.Hex(sb0), "class": "honest-object", "expected": "1", "observed": "0"}})
+			} else if !ok {
+				emit(viol{"verify-not-repeatable", fmt.Sprintf("verification #%d of the same honest Signature object is rejected (the first one was accepted)", k+1),
 					map[string]string{"line": line(sb0), "class": "honest-object", "expected": "1", "observed": "0", "repetition": fmt.Sprint(k + 1)}})
 			}
 			check("VerifySig", "signature", sb0, sigObj.Serialize(), line(sb0))
 			check("VerifySig", "public key", pkb0, pk.Serialize(), line(sb0))
 			cp := sigObj // struct copy: must be independent as far as the API can tell
 			evals++
-			if !groupsig.VerifySig(*pk, msg, cp) {
+			if firstOK && !groupsig.VerifySig(*pk, msg, cp) {
 				emit(viol{"verify-not-repeatable", "verification of a struct copy of an accepted Signature is rejected",
 					map[string]string{"line": line(sb0), "class": "copy"}})
 			}
@@ -134,7 +141,7 @@ func runReuse(g *gen, rounds int, emit emitFn) (evals int, results map[string]in
 		check("AggregateSeckeys", "secret key", skb0, sec.Serialize(), "skser "+sk.String())
 		// and after all of that the object still verifies
 		evals++
-		if !groupsig.VerifySig(*pk, msg, sigObj) {
+		if firstOK && !groupsig.VerifySig(*pk, msg, sigObj) {
 			emit(viol{"verify-not-repeatable", "the honest Signature object no longer verifies after it was used by accessors / aggregation",
 				map[string]string{"line": line(sb0), "class": "honest-object-after-use"}})
 		}
